@@ -6,8 +6,10 @@ use crate::common::LABELS;
 use crate::model::*;
 use ark_bulletproofs::r1cs::{
     ConstraintSystem, LinearCombination, Prover, R1CSError, RandomizableConstraintSystem,
-    RandomizedConstraintSystem, RandomizingProver, RandomizingVerifier, Variable, Verifier,
+    RandomizedConstraintSystem, Variable, Verifier,
 };
+#[cfg(feature = "hooks")]
+use ark_bulletproofs::r1cs::{RandomizingProver, RandomizingVerifier};
 use ark_ec::AffineRepr;
 use ark_ff::PrimeField;
 use merlin::Transcript;
@@ -28,6 +30,7 @@ pub trait Hooks<F: PrimeField> {
     }
 }
 
+#[cfg(feature = "hooks")]
 impl<'g, G: AffineRepr> Hooks<G::ScalarField> for Prover<'g, G, &'g mut Transcript> {
     fn hook_overwrite(
         &mut self,
@@ -40,6 +43,7 @@ impl<'g, G: AffineRepr> Hooks<G::ScalarField> for Prover<'g, G, &'g mut Transcri
     }
 }
 
+#[cfg(feature = "hooks")]
 impl<'g, G: AffineRepr> Hooks<G::ScalarField> for RandomizingProver<'g, G, &'g mut Transcript> {
     fn hook_overwrite(
         &mut self,
@@ -57,10 +61,62 @@ impl<'g, G: AffineRepr> Hooks<G::ScalarField> for RandomizingProver<'g, G, &'g m
 
 impl<'t, G: AffineRepr> Hooks<G::ScalarField> for Verifier<G, &'t mut Transcript> {}
 
+#[cfg(feature = "hooks")]
 impl<'t, G: AffineRepr> Hooks<G::ScalarField> for RandomizingVerifier<G, &'t mut Transcript> {
     fn hook_challenge(&mut self, label: &'static [u8]) -> Option<G::ScalarField> {
         Some(self.challenge_scalar(label))
     }
+}
+
+/// Execute one op inside a randomized closure.  With the crate's guarded
+/// seams the wrapper types are nameable and carry the gate-overwrite hook.
+#[cfg(feature = "hooks")]
+fn exec_rnd<F: PrimeField, C: ConstraintSystem<F> + Hooks<F>>(rcs: &mut C, op: &Op, sh: &mut Shared<F>) {
+    exec_op(rcs, op, sh)
+}
+
+// ---- guard-off build: /repo linked WITHOUT verif-hooks (public API only) ----
+// No gate overwrite (the fault generator does not draw gate faults in this
+// build); the randomized-phase wrappers cannot be named, so they are driven
+// through a generic delegating adapter.
+#[cfg(not(feature = "hooks"))]
+impl<'g, G: AffineRepr> Hooks<G::ScalarField> for Prover<'g, G, &'g mut Transcript> {}
+
+#[cfg(not(feature = "hooks"))]
+struct Rnd<'a, C>(&'a mut C);
+
+#[cfg(not(feature = "hooks"))]
+impl<'a, F: PrimeField, C: RandomizedConstraintSystem<F>> ConstraintSystem<F> for Rnd<'a, C> {
+    fn transcript(&mut self) -> &mut Transcript {
+        self.0.transcript()
+    }
+    fn multiply(&mut self, left: LinearCombination<F>, right: LinearCombination<F>) -> (Variable<F>, Variable<F>, Variable<F>) {
+        self.0.multiply(left, right)
+    }
+    fn allocate(&mut self, assignment: Option<F>) -> Result<Variable<F>, R1CSError> {
+        self.0.allocate(assignment)
+    }
+    fn allocate_multiplier(&mut self, input_assignments: Option<(F, F)>) -> Result<(Variable<F>, Variable<F>, Variable<F>), R1CSError> {
+        self.0.allocate_multiplier(input_assignments)
+    }
+    fn multipliers_len(&self) -> usize {
+        self.0.multipliers_len()
+    }
+    fn constrain(&mut self, lc: LinearCombination<F>) {
+        self.0.constrain(lc)
+    }
+}
+
+#[cfg(not(feature = "hooks"))]
+impl<'a, F: PrimeField, C: RandomizedConstraintSystem<F>> Hooks<F> for Rnd<'a, C> {
+    fn hook_challenge(&mut self, label: &'static [u8]) -> Option<F> {
+        Some(self.0.challenge_scalar(label))
+    }
+}
+
+#[cfg(not(feature = "hooks"))]
+fn exec_rnd<F: PrimeField, C: RandomizedConstraintSystem<F>>(rcs: &mut C, op: &Op, sh: &mut Shared<F>) {
+    exec_op(&mut Rnd(rcs), op, sh)
 }
 
 pub fn vk_to_var<F: PrimeField>(k: VK) -> Variable<F> {
@@ -518,7 +574,7 @@ pub fn step_prover<'g, G: AffineRepr>(
                     s.model.begin_phase2();
                     let before = s.missing_reported;
                     for op in &block {
-                        exec_op(rcs, op, &mut s);
+                        exec_rnd(rcs, op, &mut s);
                         if s.propagate_missing && s.missing_reported > before {
                             return Err(R1CSError::MissingAssignment);
                         }
@@ -571,7 +627,7 @@ pub fn drive_verifier<'t, G: AffineRepr>(
                     s.model.begin_phase2();
                     let before = s.missing_reported;
                     for op in &block {
-                        exec_op(rcs, op, &mut s);
+                        exec_rnd(rcs, op, &mut s);
                         if s.propagate_missing && s.missing_reported > before {
                             return Err(R1CSError::MissingAssignment);
                         }
